@@ -121,6 +121,60 @@ theorem respBlock_ok (e : Engines) (hwf : EnginesWF e) (c : Conf) (q : Query) (h
         rw [hips, he] at this
         simp [this]
 
+theorem notPreceded_of_blocked (e : Engines) (c : Conf) (q : Query) (hb : blockedByRules e c q = true) :
+    precededByOther e c q = false := by
+  unfold blockedByRules at hb
+  simp only [Bool.and_eq_true, Bool.not_eq_true'] at hb
+  exact hb.1.2
+
+theorem notPreceded_of_filtOff (e : Engines) (c : Conf) (q : Query) (hf : filteringOn c = false) :
+    precededByOther e c q = false := by
+  simp [precededByOther, hf]
+
+theorem notPreceded_of_serviceMayBlock (e : Engines) (c : Conf) (q : Query) (hs : serviceMayBlock e c q = true) :
+    precededByOther e c q = false := by
+  apply notPreceded_of_filtOff
+  unfold serviceMayBlock at hs
+  simp only [Bool.and_eq_true, Bool.not_eq_true'] at hs
+  exact hs.1.1.2
+
+/-- the dispatch of `handleMain` on a result of the rule / service checkers -/
+theorem handleMain_of_ruleBlock (e : Engines) (c : Conf) (u : Upstream) (q : Query) (res : Result)
+    (hres : checkHost e c (trimDot q.name) q.qtype (settings c) = .ok res)
+    (hf : res.isFiltered = true) (hr : res.reason = .blockList ∨ res.reason = .blockedService) :
+    handleMain e c u q = .done (genDNSFilterMessage c q res) []
+        (some { reason := res.reason, isFiltered := true, svcName := res.svcName, origAnswer := none }) := by
+  unfold handleMain
+  rw [hres]
+  have h1 : ¬(res.reason = .rewritten ∧ res.canon ≠ [] ∧ res.ipList = []) := by
+    intro ⟨h, _⟩; rcases hr with hr | hr <;> rw [hr] at h <;> cases h
+  have hbm : blockedMessage c u q res = (genDNSFilterMessage c q res, []) := by
+    unfold blockedMessage
+    have n1 : ¬((q.qtype = tA ∨ q.qtype = tAAAA ∨ q.qtype = tHTTPS) ∧ res.reason = .safeBrowsing) := by
+      intro ⟨_, h⟩; rcases hr with hr | hr <;> rw [hr] at h <;> cases h
+    have n2 : ¬((q.qtype = tA ∨ q.qtype = tAAAA ∨ q.qtype = tHTTPS) ∧ res.reason = .parental) := by
+      intro ⟨_, h⟩; rcases hr with hr | hr <;> rw [hr] at h <;> cases h
+    rw [if_neg n1, if_neg n2]
+  dsimp only
+  rw [if_neg h1]
+  simp only [hf, if_true, hbm]
+
+theorem handleMain_of_plain (e : Engines) (c : Conf) (u : Upstream) (q : Query) (res : Result)
+    (hres : checkHost e c (trimDot q.name) q.qtype (settings c) = .ok res)
+    (hf : res.isFiltered = false) (hr : res.reason = .notFound ∨ res.reason = .allowList) :
+    handleMain e c u q = forwardStage e c u q res := by
+  unfold handleMain
+  rw [hres]
+  have h1 : ¬(res.reason = .rewritten ∧ res.canon ≠ [] ∧ res.ipList = []) := by
+    intro ⟨h, _⟩; rcases hr with hr | hr <;> rw [hr] at h <;> cases h
+  have h2 : ¬(res.reason = .rewritten) := by
+    intro h; rcases hr with hr | hr <;> rw [hr] at h <;> cases h
+  have h3 : ¬(res.reason = .autoHosts) := by
+    intro h; rcases hr with hr | hr <;> rw [hr] at h <;> cases h
+  dsimp only
+  rw [if_neg h1]
+  simp only [h2, h3, if_false, hf, Bool.false_eq_true]
+
 /-- A name blocked at the request stage: nothing is sent upstream and the
 blocking-mode response for the matched result is produced. -/
 theorem handleMain_blocked (e : Engines) (hwf : EnginesWF e) (c : Conf) (u : Upstream) (q : Query)
@@ -129,22 +183,26 @@ theorem handleMain_blocked (e : Engines) (hwf : EnginesWF e) (c : Conf) (u : Ups
         (some { reason := res.reason, isFiltered := true, svcName := res.svcName, origAnswer := none }) ∧
       (res.reason = .blockList ∨ res.reason = .blockedService) ∧
       res.ips = hostRuleIPs e c (qhost q) q.qtype q.qtype := by
-  obtain ⟨res, hres, h1, _, _⟩ := checkHost_spec e hwf c q
+  obtain ⟨res, hres, h1, _, _, _⟩ := checkHost_spec e hwf c q (notPreceded_of_blocked e c q hb)
   obtain ⟨hf, hr, hips⟩ := h1 hb
-  exact ⟨res, by simp [handleMain, hres, hf], hr, hips⟩
+  exact ⟨res, handleMain_of_ruleBlock e c u q res hres hf hr, hr, hips⟩
 
 theorem handleMain_serviceOnly (e : Engines) (hwf : EnginesWF e) (c : Conf) (u : Upstream) (q : Query)
     (hb : blockedByRules e c q = false) (hs : serviceMayBlock e c q = true) :
     ∃ res, handleMain e c u q = .done (genDNSFilterMessage c q res) []
         (some { reason := .blockedService, isFiltered := true, svcName := res.svcName, origAnswer := none }) ∧
       res.ips = [] := by
-  obtain ⟨res, hres, _, h2, _⟩ := checkHost_spec e hwf c q
+  obtain ⟨res, hres, _, h2, _, _⟩ := checkHost_spec e hwf c q (notPreceded_of_serviceMayBlock e c q hs)
   obtain ⟨hf, hr, hips⟩ := h2 hb hs
-  exact ⟨res, by simp [handleMain, hres, hf, hr], hips⟩
+  have := handleMain_of_ruleBlock e c u q res hres hf (Or.inr hr)
+  rw [hr] at this
+  exact ⟨res, this, hips⟩
 
-/-- What happens to a name that is not blocked at the request stage. -/
+/-- What happens to a name that is not blocked at the request stage (no rewrite
+or hosts entry in front, no other checker blocking). -/
 theorem handleMain_forward (e : Engines) (hwf : EnginesWF e) (c : Conf) (u : Upstream) (q : Query)
-    (hb : blockedByRules e c q = false) (hs : serviceMayBlock e c q = false) :
+    (hpre : precededByOther e c q = false)
+    (hb : blockedByRules e c q = false) (hs : serviceMayBlock e c q = false) (hob : otherBlocks e c q = false) :
     (respFilterApplies e c q = false →
       ∃ ql, handleMain e c u q = .done (u.exchange q) [q] (some ql) ∧ ql.isFiltered = false ∧ ql.origAnswer = none) ∧
     (respFilterApplies e c q = true → (∀ rr ∈ u.answer, offending e c rr = false) →
@@ -157,8 +215,9 @@ theorem handleMain_forward (e : Engines) (hwf : EnginesWF e) (c : Conf) (u : Ups
           handleMain e c u q = .done (genDNSFilterMessage c q r) [q]
             (some { reason := .blockList, isFiltered := true, svcName := [],
                     origAnswer := some (pre.map (stripC c) ++ stripC c rr :: post) })) := by
-  obtain ⟨res, hres, _, _, h3⟩ := checkHost_spec e hwf c q
-  obtain ⟨hnf, hallow⟩ := h3 hb hs
+  obtain ⟨res, hres, _, _, h3, _⟩ := checkHost_spec e hwf c q hpre
+  obtain ⟨hnf, hreason, hallow⟩ := h3 hb hs hob
+  have hmain := handleMain_of_plain e c u q res hres hnf hreason
   have hcond : (res.reason = .allowList ∨ (!(settings c).protection) = true ∨ (!(settings c).filtering) = true) ↔
       respFilterApplies e c q = false := by
     rw [settings_protection, settings_filtering]
@@ -168,9 +227,9 @@ theorem handleMain_forward (e : Engines) (hwf : EnginesWF e) (c : Conf) (u : Ups
   refine ⟨?_, ?_, ?_⟩
   · intro happ
     refine ⟨{ reason := res.reason, isFiltered := false, svcName := res.svcName, origAnswer := none }, ?_, rfl, rfl⟩
-    simp only [handleMain, hres, hnf]
+    rw [hmain]
+    simp only [forwardStage]
     rw [if_pos (hcond.mpr happ)]
-    simp
   · intro happ hclean
     have hp : protectionOn c = true := by
       unfold respFilterApplies at happ; simp at happ; exact happ.1.1
@@ -179,25 +238,94 @@ theorem handleMain_forward (e : Engines) (hwf : EnginesWF e) (c : Conf) (u : Ups
     have hnc : ¬(res.reason = .allowList ∨ (!(settings c).protection) = true ∨ (!(settings c).filtering) = true) := by
       rw [hcond, happ]; simp
     refine ⟨{ reason := res.reason, isFiltered := false, svcName := res.svcName, origAnswer := none }, ?_, rfl, rfl⟩
-    simp only [handleMain, hres, hnf]
+    rw [hmain]
+    simp only [forwardStage]
     rw [if_neg hnc]
     have := filterAnswers_clean e hwf c hp hf u.answer hclean
-    simp only [Upstream.exchange, Bool.false_eq_true, if_false]
+    simp only [Upstream.exchange]
     rw [this]
-  · intro happ pre rr post h t hsplit hpre hfb
+  · intro happ pre rr post h t hsplit hpre' hfb
     have hp : protectionOn c = true := by
       unfold respFilterApplies at happ; simp at happ; exact happ.1.1
     have hf : filteringOn c = true := by
       unfold respFilterApplies at happ; simp at happ; exact happ.1.2
     have hnc : ¬(res.reason = .allowList ∨ (!(settings c).protection) = true ∨ (!(settings c).filtering) = true) := by
       rw [hcond, happ]; simp
-    obtain ⟨r, hr, hB⟩ := filterAnswers_first e hwf c hp hf pre rr post hpre h t hfb
+    obtain ⟨r, hr, hB⟩ := filterAnswers_first e hwf c hp hf pre rr post hpre' h t hfb
     refine ⟨r, hB, ?_⟩
-    simp only [handleMain, hres, hnf]
+    rw [hmain]
+    simp only [forwardStage]
     rw [if_neg hnc]
-    simp only [Upstream.exchange, Bool.false_eq_true, if_false, hsplit]
+    simp only [Upstream.exchange, hsplit]
     rw [hr]
     simp [hB.2.1, hB.2.2.2]
+
+/-- safe browsing / parental block: answered locally (possibly after resolving the block host) -/
+theorem handleMain_otherBlocks (e : Engines) (hwf : EnginesWF e) (c : Conf) (u : Upstream) (q : Query)
+    (hpre : precededByOther e c q = false)
+    (hb : blockedByRules e c q = false) (hs : serviceMayBlock e c q = false) (hob : otherBlocks e c q = true) :
+    ∃ res, (res.reason = .safeBrowsing ∨ res.reason = .parental) ∧
+      handleMain e c u q = .done (blockedMessage c u q res).1 (blockedMessage c u q res).2
+        (some { reason := res.reason, isFiltered := true, svcName := res.svcName, origAnswer := none }) := by
+  obtain ⟨res, hres, _, _, _, h4⟩ := checkHost_spec e hwf c q hpre
+  obtain ⟨hf, hr⟩ := h4 hb hs hob
+  refine ⟨res, hr, ?_⟩
+  unfold handleMain
+  rw [hres]
+  have h1 : ¬(res.reason = .rewritten ∧ res.canon ≠ [] ∧ res.ipList = []) := by
+    intro ⟨h, _⟩; rcases hr with hr | hr <;> rw [hr] at h <;> cases h
+  dsimp only
+  rw [if_neg h1]
+  simp only [hf, if_true]
+
+/-- the addresses of a legacy rewrite as the pipeline uses them -/
+def rewriteIPs (e : Engines) (c : Conf) (q : Query) : List IP :=
+  (C06.processRewritesWith e.srt c.rewrites (qhost q) q.qtype).ips.filterMap parseAddr
+
+def rewriteCanon (e : Engines) (c : Conf) (q : Query) : Bytes :=
+  (C06.processRewritesWith e.srt c.rewrites (qhost q) q.qtype).canon
+
+/-- A legacy rewrite is consulted before every host checker. -/
+theorem checkHost_rewritten (e : Engines) (c : Conf) (q : Query)
+    (hf : filteringOn c = true) (hq : qhost q ≠ [])
+    (hrw : legacyRewritten e c (qhost q) q.qtype = true) :
+    checkHost e c (trimDot q.name) q.qtype (settings c) =
+      .ok { reason := .rewritten, canon := rewriteCanon e c q, ipList := rewriteIPs e c q } := by
+  have hh : trimDot q.name ≠ [] := by
+    intro h; apply hq; unfold qhost; rw [h]; rfl
+  unfold checkHost
+  simp only [hh, if_false]
+  have hqh : lower (trimDot q.name) = qhost q := rfl
+  rw [hqh, settings_filtering, hf]
+  unfold legacyRewritten at hrw
+  simp [rewriteResult, hrw, rewriteCanon, rewriteIPs]
+
+/-- What the pipeline does with a rewritten name: resolve the canonical name
+upstream (restoring the question and prepending the CNAME afterwards), or answer
+locally with the optional CNAME and the addresses. -/
+theorem handleMain_rewritten (e : Engines) (c : Conf) (u : Upstream) (q : Query)
+    (hf : filteringOn c = true) (hq : qhost q ≠ [])
+    (hrw : legacyRewritten e c (qhost q) q.qtype = true) :
+    handleMain e c u q =
+      if rewriteCanon e c q ≠ [] ∧ rewriteIPs e c q = [] then
+        .done { u.exchange { q with name := fqdn (rewriteCanon e c q) } with
+                qname := q.name,
+                answer := { name := q.name, ttl := c.ttl, data := .cname (fqdn (rewriteCanon e c q)) } ::
+                  (u.exchange { q with name := fqdn (rewriteCanon e c q) }).answer }
+          [{ q with name := fqdn (rewriteCanon e c q) }]
+          (some { reason := .rewritten, isFiltered := false, svcName := [], origAnswer := none })
+      else
+        .done (cnameWithIPs c q (rewriteIPs e c q) (rewriteCanon e c q)) []
+          (some { reason := .rewritten, isFiltered := false, svcName := [], origAnswer := none }) := by
+  unfold handleMain
+  rw [checkHost_rewritten e c q hf hq hrw]
+  dsimp only
+  by_cases h : rewriteCanon e c q ≠ [] ∧ rewriteIPs e c q = []
+  · rw [if_pos h, if_pos ⟨rfl, h⟩]
+  · have h' : ¬(Reason.rewritten = Reason.rewritten ∧ rewriteCanon e c q ≠ [] ∧ rewriteIPs e c q = []) :=
+      fun ⟨_, hh⟩ => h hh
+    rw [if_neg h, if_neg h']
+    simp
 
 theorem sameModuloStrip_refl (c : Conf) (l : List RR) : sameModuloStrip c l l = true := by
   induction l with
